@@ -35,7 +35,7 @@ ASSUMPTIONS = [
 ]
 
 MAIN = "file:///zcv/main.conf"
-SCHEMA = '<schema><multikey name="k" attribute="uses"/></schema>'
+SCHEMA = '<schema><multikey name="k" attribute="uses"/><key name="o" default="d"/></schema>'
 
 NAMES = ["a", "A", "b", "c"]
 VALUES = ["v", "w", "", "$b", "$$b", "${B}x", "  p  q ", "$a"]
@@ -125,6 +125,25 @@ def load(resources, schema=None, loader=None):
         return ("internal", type(e).__name__ + ":" + str(e)[:80])
 
 
+def load_extended(resources):
+    ZConfig, MemLoader, sch = _zc()
+    if "MemExt" not in _STATE:
+        from ZConfig import cmdline
+
+        class MemExt(cmdline.ExtendedConfigLoader):
+            resources = None
+
+            def openResource(self, url):
+                url = str(url)
+                if url not in self.resources:
+                    raise ZConfig.ConfigurationError("no such resource " + url, url)
+                return self.createResource(io.StringIO(self.resources[url]), url)
+        _STATE["MemExt"] = MemExt
+    loader = _STATE["MemExt"](sch)
+    loader.addOption("o=zcv")
+    return load(resources, loader=loader)
+
+
 def reference(resources):
     try:
         events, defs = model.ref_read(resources, MAIN, env=dict(os.environ))
@@ -158,6 +177,10 @@ def check(resources):
         g = load(p, loader=shared)
         if g[0] != "reject":
             out.append(("definition-leaks-into-next-load", "probe %r -> %r (same loader object)" % (p[MAIN], g)))
+    # the same load through the extended (command-line) loader carrying an unrelated option
+    got4 = load_extended(resources)
+    if got4 != got1:
+        out.append(("extended-loader-differs", "%r with an unrelated override, %r without" % (got4, got1)))
     # and the entry-point way: a new loader per load, same schema object
     got3 = load(resources)
     if got3 != got1:
